@@ -16,6 +16,7 @@ type Spelling struct {
 	Blanks    int  // 0 none, 1 empty lines after some lines, 2 whitespace-only lines after some lines, 3 lines of Unicode white space only
 	LeadBlank bool // a blank line before the first root
 	FinalNL   bool
+	Tight     bool // about half of the lines (seeded) are written WITHOUT the blank after the bullet / the #: "-name"
 	Seed      uint64
 }
 
@@ -33,11 +34,11 @@ func (s Spelling) String() string {
 		u = fmt.Sprintf("%dsp", len(s.Unit))
 	}
 	b := []string{"-", "*", "+", "mixed"}[s.Bullet]
-	return fmt.Sprintf("unit=%s bullet=%s heading=%d crlf=%v blanks=%d lead=%v finalNL=%v", u, b, s.Heading, s.CRLF, s.Blanks, s.LeadBlank, s.FinalNL)
+	return fmt.Sprintf("unit=%s bullet=%s heading=%d crlf=%v blanks=%d lead=%v finalNL=%v tight=%v", u, b, s.Heading, s.CRLF, s.Blanks, s.LeadBlank, s.FinalNL, s.Tight)
 }
 
 // AllSpellings enumerates the notation family (without leading blank line): 6 units x 4 bullet
-// policies x heading{0,1,2} x CRLF x blanks{0,1,2,3} x final newline = 768; heading variants must
+// policies x heading{0,1,2} x CRLF x blanks{0,1,2,3} x final newline x blank-after-bullet{always, sometimes omitted} = 1536; heading variants must
 // be filtered by CanHeading per forest.
 func AllSpellings(seed uint64) []Spelling {
 	var out []Spelling
@@ -47,7 +48,9 @@ func AllSpellings(seed uint64) []Spelling {
 				for _, crlf := range []bool{false, true} {
 					for bl := 0; bl <= 3; bl++ {
 						for _, fn := range []bool{true, false} {
-							out = append(out, Spelling{Unit: u, Bullet: b, Heading: h, CRLF: crlf, Blanks: bl, FinalNL: fn, Seed: seed})
+							for _, tight := range []bool{false, true} {
+								out = append(out, Spelling{Unit: u, Bullet: b, Heading: h, CRLF: crlf, Blanks: bl, FinalNL: fn, Tight: tight, Seed: seed})
+							}
 						}
 					}
 				}
@@ -62,8 +65,8 @@ func SixSpellings(seed uint64) []Spelling {
 	return []Spelling{
 		{Unit: "\t", Bullet: 0, FinalNL: true, Seed: seed},
 		{Unit: "  ", Bullet: 1, FinalNL: true, Seed: seed},
-		{Unit: "    ", Bullet: 3, FinalNL: true, Seed: seed},
-		{Unit: "  ", Bullet: 0, Heading: 1, FinalNL: true, Seed: seed},
+		{Unit: "    ", Bullet: 3, FinalNL: true, Tight: true, Seed: seed},
+		{Unit: "  ", Bullet: 0, Heading: 1, FinalNL: true, Tight: true, Seed: seed},
 		{Unit: "   ", Bullet: 0, CRLF: true, Blanks: 1, FinalNL: false, Seed: seed},
 		{Unit: " ", Bullet: 2, Blanks: 2, FinalNL: true, Seed: seed},
 	}
@@ -77,6 +80,7 @@ func RandSpelling(r *Rand) Spelling {
 		CRLF:    r.Chance(1, 4),
 		Blanks:  []int{0, 0, 1, 2, 3}[r.Intn(5)],
 		FinalNL: !r.Chance(1, 4),
+		Tight:   r.Chance(1, 4),
 		Seed:    r.Uint64(),
 	}
 	if r.Chance(1, 4) {
@@ -123,8 +127,14 @@ func SpellLines(f model.Forest, s Spelling) []Line {
 	depths, names := Depths(f)
 	for i, d := range depths {
 		var text string
+		// the blank after the marker may be omitted ("-name", "#name") unless the text begins with a
+		// blank itself (or, for headings, with another #)
+		sep := " "
+		if s.Tight && r.Chance(1, 2) && names[i] != "" && names[i][0] != ' ' && !(s.Heading > 0 && d == 1 && names[i][0] == '#') {
+			sep = ""
+		}
 		if s.Heading > 0 && d == 1 {
-			text = strings.Repeat("#", s.Heading) + " " + names[i]
+			text = strings.Repeat("#", s.Heading) + sep + names[i]
 		} else {
 			ind := d - 1
 			if s.Heading > 0 {
@@ -134,7 +144,7 @@ func SpellLines(f model.Forest, s Spelling) []Line {
 			if b == 3 {
 				b = r.Intn(3)
 			}
-			text = strings.Repeat(s.Unit, ind) + bulletChars[b] + " " + names[i]
+			text = strings.Repeat(s.Unit, ind) + bulletChars[b] + sep + names[i]
 		}
 		out = append(out, Line{Text: text, Node: i, Depth: d})
 		if s.Blanks > 0 && r.Chance(1, 3) {
